@@ -99,8 +99,6 @@ class CallMixin(ExprMixin):
                 args = [self.ev1(a, st)[1] for a in e.args]
                 return [(st, C.SPECFNS[n](self, st, *args))]
         hooks_b = [h for h in self.c.hooks if h[0] == "before" and _match(h[1], ftext)] if not self.spec else []
-        for h in hooks_b:
-            self.run_hook(st, h, e)
         res = []
         for s, f in self.ev(e.func, st):
             argexprs = list(e.args)
@@ -115,6 +113,12 @@ class CallMixin(ExprMixin):
             for s2, vals in self.ev_list(argexprs + [k.value for k in e.keywords], s):
                 args = vals[:len(argexprs)]
                 kw = {k.arg: v for k, v in zip(e.keywords, vals[len(argexprs):])}
+                if hooks_b:
+                    # the hook sees the evaluated arguments as a0, a1, ... and kw_<name>
+                    extra = {"a%d" % i: a for i, a in enumerate(args)}
+                    extra.update({"kw_" + k: v for k, v in kw.items()})
+                    for h in hooks_b:
+                        self.run_hook(s2, h, e, extra)
                 res.extend(self.call(s2, f, args, kw, e, ftext))
         if not self.spec:
             hooks_a = [h for h in self.c.hooks if h[0] == "after" and _match(h[1], ftext)]
@@ -123,14 +127,14 @@ class CallMixin(ExprMixin):
                     self.run_hook(s, h, e)
         return res
 
-    def run_hook(self, st, h, node):
+    def run_hook(self, st, h, node, extra=None):
         for act in h[2]:
             if act[0] == "assert":
-                self.oblige(st, "trace", act[1], self.spec_bool(act[2], st, old=self.entry), node.lineno, assume=True)
+                self.oblige(st, "trace", act[1], self.spec_bool(act[2], st, extra=extra, old=self.entry), node.lineno, assume=True)
             elif act[0] == "set":
-                st.ghost[act[1]] = self.spec_eval(act[2], st, old=self.entry)
+                st.ghost[act[1]] = self.spec_eval(act[2], st, extra=extra, old=self.entry)
             elif act[0] == "assume":
-                st.assume(self.spec_assume(act[1], st, old=self.entry))
+                st.assume(self.spec_assume(act[1], st, extra=extra, old=self.entry))
 
     def quant(self, kind, e, st):
         lam = e.args[-1]
@@ -167,6 +171,24 @@ class CallMixin(ExprMixin):
         k = th.kind
         if k == "specfn":
             return [(st, C.SPECFNS[th.name](self, st, *args))]
+        if k == "opaquector":
+            # constructor of an immutable value modelled as an uninterpreted sort: injective, with projections
+            oty = th.ty
+            cvs = []
+            names = [n for n, _ in th.fields]
+            vals = list(args) + [kw[n] for n in names[len(args):] if n in kw]
+            for v, (fname, fty) in zip(vals, th.fields):
+                cv = self.coerce_to(st, v, fty, fname)
+                if cv is None:
+                    raise Unsupported("%s(%s: %s)" % (oty, fname, v.ty))
+                cvs.append(cv)
+            f = z3.Function("mk_" + oty.name, *([c.ty.sort() for c in cvs] + [oty.sort()]))
+            r = f(*[c.t for c in cvs])
+            from .exec_expr import OPAQUE_ATTRS
+            for (fname, fty), cv in zip(th.fields, cvs):
+                acc = z3.Function("attr_%s_%s" % (oty.name, fname), oty.sort(), fty.sort())
+                st.assume(acc(r) == cv.t)
+            return [(st, V(oty, r))]
         if k == "tupctor":
             tty = th.ty
             vals = list(args)
@@ -257,6 +279,13 @@ class CallMixin(ExprMixin):
                     con = C.BY_FUNC.get((self.module.dotted, "%s.%s" % (owner.name, name)))
             if con is not None:
                 return self.apply_contract(st, con, None, args, kw, node)
+            if name == "for_code" and getattr(th, "module", "") and th.module.endswith("errors") and len(args) == 1:
+                # aiokafka.errors.for_code: the errno -> class table is rebuilt from errors.py on every run
+                self.exc_id("Exception")
+                t = z3.IntVal(self.exc_id("UnknownError"))
+                for code, cname in self.exc["for_code"].items():
+                    t = z3.If(args[0].t == T.intval(code).t, z3.IntVal(self.exc_id(cname)), t)
+                return [(st, V(EXC, t))]
             if name == "create_future" or ftext.endswith("create_future"):
                 return [(st, self.new_future(st))]
             if ftext in ("collections.defaultdict", "defaultdict", "collections.deque", "deque", "collections.OrderedDict"):
@@ -304,6 +333,15 @@ class CallMixin(ExprMixin):
                     r = any(tn.get(nm) == oty for nm in names) or \
                         (isinstance(oty, Ref) and oty.cls in names)
                     res.append((s, T.boolval(r)))
+            return res
+        if n == "getattr" and len(e.args) in (2, 3) and isinstance(e.args[1], ast.Constant):
+            res = []
+            for s, o in self.ev(e.args[0], st):
+                attr = e.args[1].value
+                if o.ty == EXC and attr in ("retriable", "invalid_metadata"):
+                    res.extend(self.getattr_(s, o, attr))       # class attribute table, False when absent
+                else:
+                    raise Unsupported("getattr(%s, %r) (line %s)" % (o.ty, attr, self.cur_line))
             return res
         raise Unsupported("builtin %s over a comprehension (line %s)" % (n, self.cur_line))
 
@@ -603,13 +641,17 @@ class CallMixin(ExprMixin):
         return self.py_const(v)
 
     def apply_contract(self, st, con, recv, args, kw, node):
+        from . import source
         saved = self.fact_target
+        saved_ctx = getattr(self, "spec_ctx", None)
         if self._ax_sink is None:
             self.fact_target = st        # facts produced while evaluating the callee's clauses belong to the caller's path
+        self.spec_ctx = (con, source.module(con.module))
         try:
             return self._apply_contract(st, con, recv, args, kw, node)
         finally:
             self.fact_target = saved
+            self.spec_ctx = saved_ctx
 
     def _apply_contract(self, st, con, recv, args, kw, node):
         from . import source
